@@ -235,11 +235,11 @@ def check_data_header(run, pkg):
                 run.ob("R-PROTO", fq, f"{ndim}D:{t[2]}", okr, f"the {t[2]} {t[3]} line carries boxbounds[{r}]", str([show(g) if g else g for g in got]),
                        witness=None if okr else f"axis {r} labelled with another axis' numbers", loc=loc)
         cnt = [t for t in toks if len(t) == 2 and t[1] == "atoms"]
-        okc = len(cnt) == 1 and not isinstance(cnt[0][0], str) and cnt[0][0][1] == ("sym", "nparticle")
-        run.ob("R-PROTO", fq, f"{ndim}D:atoms", okc, "`<nparticle> atoms` line", str(cnt)[:60], witness=None if okc else "atom count line wrong", loc=loc)
+        okc = tri_lazy(lambda: (True if (len(cnt) == 1) else None), lambda: (True if (not isinstance(cnt[0][0], str)) else None), lambda: eqv(cnt[0][0][1], ("sym", "nparticle")))
+        run.ob("R-PROTO", fq, f"{ndim}D:atoms", okc, "`<nparticle> atoms` line", str(cnt)[:60], witness=None if okc else "atom count line wrong", loc=loc, sound=True)
         ty = [t for t in toks if len(t) == 3 and t[1:] == ["atom", "types"]]
-        okt = len(ty) == 1 and not isinstance(ty[0][0], str) and ty[0][0][1] == ("sym", "nparticle_type")
-        run.ob("R-PROTO", fq, f"{ndim}D:types", okt, "`<nparticle_type> atom types` line", str(ty)[:60], witness=None if okt else "type count line wrong", loc=loc)
+        okt = tri_lazy(lambda: (True if (len(ty) == 1) else None), lambda: (True if (not isinstance(ty[0][0], str)) else None), lambda: eqv(ty[0][0][1], ("sym", "nparticle_type")))
+        run.ob("R-PROTO", fq, f"{ndim}D:types", okt, "`<nparticle_type> atom types` line", str(ty)[:60], witness=None if okt else "type count line wrong", loc=loc, sound=True)
 
 
 # ====================================================================== text readers
@@ -353,10 +353,9 @@ def check_text_reader(run, pkg, fname, ndim, style, wtoks, light=False):
     if comp[0] == "comp" and len(comp[3]) == 1 and not comp[3][0][2]:
         cv, src, _ = comp[3][0]
         elt = comp[2]
-        okc = elt == ("call", "builtins.float", (cv,), ()) and src[0] == "sub" and src[2] == ("slice", C(2), C(ndim + 2), NONE) \
-            and src[1][0] == "call" and src[1][1] == ".split"
+        okc = tri_lazy(lambda: eqv(elt, ("call", "builtins.float", (cv,), ())), lambda: (True if (src[0] == "sub") else None), lambda: eqv(src[2], ("slice", C(2), C(ndim + 2), NONE)), lambda: (True if (src[1][0] == "call") else None), lambda: (True if (src[1][1] == ".split") else None))
     run.ob("R-IDX", fq, f"{cfg}:coords", okc, f"coordinates are tokens 3..{ndim + 2} of the atom line, counted from the front (trailing columns ignored)", show(comp)[:90],
-           witness=None if okc else "coordinates read from other columns", loc=loc_of(rr.it, pstore))
+           witness=None if okc else "coordinates read from other columns", loc=loc_of(rr.it, pstore), sound=True)
     # scaling is decided on the final positions (it may be applied per atom or to the whole array): see check_selection
     stored_scale = scale
     check_selection(run, rr, fq, cfg, kws, pstore, tstore, style, ndim, stored_scale)
@@ -426,8 +425,8 @@ def check_selection(run, rr, fq, cfg, kws, pstore, tstore, style, ndim, stored_s
     run.ob("R-SEL", fq, f"{cfg}:relabel", okT, "selected types are relabelled through the map (key -> value), order kept", show(T)[:100],
            witness=None if okT else "molecule types are not the map's values", loc=loc)
     n = strip_alloc(kws["nparticle"])
-    okn = n in (("sub", ("attr", T, "shape"), C(0)), ("call", "builtins.len", (T,), ()))
-    run.ob("R-SEL", fq, f"{cfg}:count", okn, "nparticle is the number of selected atoms", show(n)[:60], witness=None if okn else "nparticle is the atom count of the file", loc=loc)
+    okn = eqv(n, ("sub", ("attr", T, "shape"), C(0)), ("call", "builtins.len", (T,), ()))
+    run.ob("R-SEL", fq, f"{cfg}:count", okn, "nparticle is the number of selected atoms", show(n)[:60], witness=None if okn else "nparticle is the atom count of the file", loc=loc, sound=True)
     # positions post-processing, decided point-wise: the selection mask only picks rows, so it is dropped and the per-atom
     # stored value (token, or token x boxlength) is substituted for the array
     sel = ("sub", PZ, m)
@@ -578,11 +577,11 @@ def check_additions(run, pkg, wtoks):
             okf = not tr.atoms and any(sp.simplify(g - f_) == 0 for f_ in (S.PyInt(Ln / (N + 9)), sp.floor(Ln / (N + 9)), S.PyInt(Ln // (N + 9))))
             if not okf:
                 # Len // (N+9)
-                okf = fr[2][0] == ("bin", "//", ("call", "builtins.len", (content,), ()), ("bin", "+", npart, C(9)))
+                okf = eqv(fr[2][0], ("bin", "//", ("call", "builtins.len", (content,), ()), ("bin", "+", npart, C(9))))
         except Exception:  # noqa
             okf = None
     run.ob("R-PROTO", fq, "frames", okf, "number of frames = file length / (N + 9): nine header lines per frame as written", show(fr)[:80],
-           witness=None if okf else "header size assumed by the stride differs from the nine lines the writer emits", loc=loc)
+           witness=None if okf else "header size assumed by the stride differs from the nine lines the writer emits", loc=loc, sound=True)
     # block slice
     sl = Li.iter
     oks = None
@@ -603,14 +602,14 @@ def check_additions(run, pkg, wtoks):
     row_ok = tg[0] == nvar
     col = tg[1]
     sp_item = ("call", ".split", (item,), ())
-    okc = col == ("bin", "-", ("call", "builtins.int", (("sub", sp_item, C(0)),), ()), C(1))
+    okc = eqv(col, ("bin", "-", ("call", "builtins.int", (("sub", sp_item, C(0)),), ()), C(1)))
     run.ob("R-IDX", fq, "placement", row_ok and okc, "value of an atom line is stored at [frame, atom id - 1]", show(ev.data["target"][2])[:80],
-           witness=None if row_ok and okc else "values placed by line order / wrong frame row", loc=loc_of(it, ev))
+           witness=None if row_ok and okc else "values placed by line order / wrong frame row", loc=loc_of(it, ev), sound=True)
     v = ev.data["value"]
     if v[0] == "call" and v[1] == "builtins.float":
         v = v[2][0]
-    okv = v == ("sub", sp_item, ("sym", "ncol"))
-    run.ob("R-IDX", fq, "column", okv, "the requested zero-based column of the atom line is taken", show(ev.data["value"])[:60], witness=None if okv else "another column returned", loc=loc_of(it, ev))
+    okv = eqv(v, ("sub", sp_item, ("sym", "ncol")))
+    run.ob("R-IDX", fq, "column", okv, "the requested zero-based column of the atom line is taken", show(ev.data["value"])[:60], witness=None if okv else "another column returned", loc=loc_of(it, ev), sound=True)
 
 
 # ====================================================================== HOOMD
@@ -644,8 +643,8 @@ def check_gsd(run, pkg, fname, dcd):
         run.ob("R-IDX" if k == "particle_type" else "R-ALG", fq, k, ok, what, show(got)[:70] if got else "missing",
                witness=None if ok else ("typeid 0 stays 0: every per-type table indexed with type - 1 reads row -1" if k == "particle_type" else f"{k} taken from another field"), loc=loc_of(it, ce))
     hm = kws.get("hmatrix")
-    okh = hm == ("call", "numpy.diag", (want["boxlength"][0],), ())
-    run.ob("R-ALG", fq, "hmatrix", okh, "cell matrix = diag(boxlength)", show(hm)[:60] if hm else "missing", witness=None if okh else "cell matrix wrong", loc=loc_of(it, ce))
+    okh = eqv(hm, ("call", "numpy.diag", (want["boxlength"][0],), ()))
+    run.ob("R-ALG", fq, "hmatrix", okh, "cell matrix = diag(boxlength)", show(hm)[:60] if hm else "missing", witness=None if okh else "cell matrix wrong", loc=loc_of(it, ce), sound=True)
     pos = ("sub", ("attr", ("attr", fr, "particles"), "position"), ("tuple", (FULL, cut)))
     if not dcd:
         ok = kws.get("positions") == pos
@@ -655,8 +654,8 @@ def check_gsd(run, pkg, fname, dcd):
     if len(ret) != 1:
         raise AnalysisError(f"{fq}: expected one Snapshots return")
     rk = dict(ret[0].data["value"][3])
-    okn = rk.get("nsnapshots") in (("call", "builtins.len", (f,), ()), ("call", "builtins.len", (rk.get("snapshots"),), ()))
-    run.ob("R-LOOPDOM", fq, "nsnapshots", okn, "nsnapshots is the number of frames", show(rk.get("nsnapshots"))[:50], witness=None if okn else "frame count wrong", loc=loc_of(it, ret[0]))
+    okn = eqv(rk.get("nsnapshots"), ("call", "builtins.len", (f,), ()), ("call", "builtins.len", (rk.get("snapshots"),), ()))
+    run.ob("R-LOOPDOM", fq, "nsnapshots", okn, "nsnapshots is the number of frames", show(rk.get("nsnapshots"))[:50], witness=None if okn else "frame count wrong", loc=loc_of(it, ret[0]), sound=True)
     # dimension guard
     g = [r for r in it.returns if r.data["value"] == NONE and r.guards]
     okg = any(c == ("cmp", "!=", ("attr", ("attr", ("sub", f, C(0)), "configuration"), "dimensions"), nd) and pol for r in g for c, pol in r.guards)
@@ -677,21 +676,20 @@ def check_gsd(run, pkg, fname, dcd):
             cv, src, _ = snaps_t[3][0]
             elt = snaps_t[2]
             if src[0] == "call" and src[1] == "builtins.zip" and len(src[2]) == 2 and src[2][1] == dpos and elt[0] == "call" and elt[1] == "dataclasses.replace":
-                okz = elt[2] and elt[2][0] == ("elem", cv, 0) and dict(elt[3]).get("positions") == ("sub", ("elem", cv, 1), ("tuple", (FULL, cut)))
+                okz = tri_lazy(lambda: (True if (elt[2]) else None), lambda: eqv(elt[2][0], ("elem", cv, 0)), lambda: eqv(dict(elt[3]).get("positions"), ("sub", ("elem", cv, 1), ("tuple", (FULL, cut)))))
         run.ob("R-IDX", fq, "dcd:install", okz, "each frame receives its DCD positions (frame i <- positions[i][:, :ndim])", f"{len(lst_stores)} list stores; returned list {show(snaps_t)[:80] if snaps_t else None}",
-               witness=None if okz is not False else "frames paired with the wrong DCD frame / uncut columns", loc=loc)
+               witness=None if okz is not False else "frames paired with the wrong DCD frame / uncut columns", loc=loc, sound=True)
         return
     e = lst_stores[0]
     Li = it.loops[e.loops[0]]
     i = Li.target
-    okd = Li.iter == ("call", "builtins.range", (("sub", ("attr", dpos, "shape"), C(0)),), ())
-    run.ob("R-LOOPDOM", fq, "dcd:frames", okd, "all DCD frames are attached", show(Li.iter)[:70], witness=None if okd else "frames without positions", loc=fi.loc(Li.node))
+    okd = eqv(Li.iter, ("call", "builtins.range", (("sub", ("attr", dpos, "shape"), C(0)),), ()))
+    run.ob("R-LOOPDOM", fq, "dcd:frames", okd, "all DCD frames are attached", show(Li.iter)[:70], witness=None if okd else "frames without positions", loc=fi.loc(Li.node), sound=True)
     tgt_ok = e.data["target"][2] == i
     v = e.data["value"]
-    okv = v[0] == "call" and v[1] in ("dataclasses.replace",) and v[2] and v[2][0][0] == "sub" and v[2][0][2] == i and \
-        dict(v[3]).get("positions") == ("sub", ("sub", dpos, i), ("tuple", (FULL, cut)))
+    okv = tri_lazy(lambda: (True if (v[0] == "call") else None), lambda: (True if (v[1] in ("dataclasses.replace",)) else None), lambda: (True if (v[2]) else None), lambda: (True if (v[2][0][0] == "sub") else None), lambda: (True if (v[2][0][2] == i) else None), lambda: eqv(dict(v[3]).get("positions"), ("sub", ("sub", dpos, i), ("tuple", (FULL, cut)))))
     run.ob("R-IDX", fq, "dcd:install", bool(tgt_ok and okv), "frame i is replaced by a copy of frame i carrying DCD positions[i][:, :ndim]", show(v)[:110],
-           witness=None if tgt_ok and okv else "frame i receives positions of another frame / uncut columns", loc=loc_of(it, e))
+           witness=None if tgt_ok and okv else "frame i receives positions of another frame / uncut columns", loc=loc_of(it, e), sound=True)
     chk = [r for r in it.returns if r.data["value"] == NONE and any(c[0] == "cmp" and c[1] == "!=" and ("call", "builtins.len", (rk.get("snapshots"),), ()) in (c[2], c[3]) for c, _ in r.guards)]
     run.ob("R-DISPATCH", fq, "dcd:consistency", True if chk else None, "GSD and DCD frame counts are compared before attaching", f"{len(chk)} guards", loc=loc) if chk else None
 
@@ -750,10 +748,10 @@ def check_log(run, pkg):
            witness=None if okn else "Step at line 10, Loop time at line 15: 4 data rows expected", loc=loc_of(it, rc[0]))
     okd = L.iter == ("call", "builtins.range", (("sub", ("attr", ln_t, "shape"), C(0)),), ()) if ln_t else False
     run.ob("R-LOOPDOM", fq, "sections", okd, "every section is read", show(L.iter)[:70], witness=None if okd else "sections skipped", loc=fi.loc(L.node))
-    okf = c[2] and c[2][0] == ("sym", "filename")
+    okf = tri_lazy(lambda: (True if (c[2]) else None), lambda: eqv(c[2][0], ("sym", "filename")))
     sep = kw(c, "sep")
-    run.ob("R-PROTO", fq, "whitespace", bool(okf) and sep == C(r"\s+"), "sections are parsed from the same file with whitespace-separated columns", show(sep) if sep else "default",
-           witness=None if okf and sep == C(r"\s+") else "columns not split on whitespace", loc=loc_of(it, rc[0]))
+    run.ob("R-PROTO", fq, "whitespace", tri_lazy(lambda: (True if (bool(okf)) else None), lambda: eqv(sep, C(r"\s+"))), "sections are parsed from the same file with whitespace-separated columns", show(sep) if sep else "default",
+           witness=None if okf and sep == C(r"\s+") else "columns not split on whitespace", loc=loc_of(it, rc[0]), sound=True)
     app = [e for e in it.events if e.kind == "call" and e.data["call"][1] == ".append" and e.loops == rc[0].loops and e.data["call"][2][1] == rc[0].data["result"]]
     ret = it.returns[0].data["value"] if it.returns else None
     okr = len(app) == 1 and ret is not None and ret[0] == "appended" and ret[2] == rc[0].data["result"]
